@@ -44,4 +44,10 @@ CORPUS = [
     T('c10-distribution-sample-shape-equal-rank', DD, "        elif len(x_shape) == len(self.batch_shape):\n", "        elif len(x_shape) == len(self.batch_shape) + 7:\n", expect=[('C10.S', "Distribution._sample_shape::x['S', 'N']::parameters['S', '1']")]),
     T('c10-benign-distribution-sample-shape-reordered', DD, "        if len(x_shape) > len(self.batch_shape):\n            offset = 1 if len(self.batch_shape) == 0 else len(self.batch_shape)\n            return x_shape[:-offset]\n        elif len(x_shape) == len(self.batch_shape):",
       "        if len(x_shape) > len(self.batch_shape):\n            offset = max(1, len(self.batch_shape))\n            return x_shape[:-offset]\n        elif len(self.batch_shape) == len(x_shape):", benign=True),
+    T('c10-batch-wide-switch-on-a-parameter', CO, "        height_growth_exp = torch.exp(heights_sorted * self.growth)\n        integral = (height_growth_exp[..., 1:] - height_growth_exp[..., :-1]) / (\n            self.theta * self.growth\n        )\n",
+      "        if torch.any(self.growth.abs() < 1.0e-7):\n            integral = (heights_sorted[..., 1:] - heights_sorted[..., :-1]) / self.theta\n        else:\n            height_growth_exp = torch.exp(heights_sorted * self.growth)\n            integral = (height_growth_exp[..., 1:] - height_growth_exp[..., :-1]) / (\n                self.theta * self.growth\n            )\n",
+      expect=[('C10.D', 'ExponentialCoalescent.log_prob::torch.any')]),
+    T('c10-birth-death-terms-added-out-of-place', 'torchtree/evolution/birth_death.py', "            log_p -= torch.log(1.0 - p[..., 0])\n", "            log_p = log_p - torch.log(1.0 - p[..., 0])\n", expect=[('C10.A', 'BirthDeath.log_prob')]),
+    T('c10-list-valued-x-joined-along-the-first-axis', DD, "            self.x = CatParameter('x', x, dim=-1)\n", "            self.x = CatParameter('x', x)\n", expect=[('C10.K', 'Distribution.__init__')]),
+    T('c10-benign-list-valued-x-positional-axis', DD, "            self.x = CatParameter('x', x, dim=-1)\n", "            self.x = CatParameter('x', x, -1)\n", benign=True),
 ]
